@@ -65,10 +65,11 @@ def liveCount (f : Nat → Phase) : Nat → Nat
   | n + 1 => liveCount f n + (if live (f n) then 1 else 0)
 
 /-- the invariant: polls at or above `n` are fresh; the gauge counts the live polls; the id map only names live polls -/
-structure Inv (s : St) (n : Nat) : Prop where
+structure Inv (sid : Nat → Nat) (s : St) (n : Nat) : Prop where
   fresh_above : ∀ p, n ≤ p → s.phase p = .fresh
   gauge_eq : s.gauge = (liveCount s.phase n : Int)
   map_live : ∀ t p, s.map t = some p → live (s.phase p) = true
+  map_sid : ∀ t p, s.map t = some p → sid p = t
 
 theorem liveCount_set_above (f : Nat → Phase) (p : Nat) (x : Phase) : ∀ n, n ≤ p → liveCount (setPhase f p x) n = liveCount f n := by
   intro n
